@@ -109,6 +109,22 @@ CHECKS = {
             'the same or an incompatible shape only (numpy broadcasting to a larger shape not modelled); masks checked '
             'by the oracle only.',
             '10 (C08)'),
+    'C11': ('Lean 4 proof over a line-by-line transcription of the Tripoli-4 scanner (Scanner._get_collres, '
+            'BatchResultScanner, side outputs, _add_time, Parser.__init__ outcome): the scanner is a fold, so editions closed '
+            'in a prefix are closed identically in the complete listing; a cut line closes at most one more block; the '
+            'repaired Parser.__init__ has no third outcome + differential correspondence on prefixes of the shipped listings '
+            '(outcome, edition keys, block text checksum, times, flags) + deep comparison of every edition that parses with '
+            'the same edition of the complete listing, in a long-lived process and in fresh processes',
+            'scanLines_append, step_history, prefix_history (same key, same text, same order), cut_line_at_most_one, '
+            'collres_of_history (the OrderedDict is the history replayed), repaired_never_crashes, c11_pinned_refuted. '
+            'PARTIAL: the pyparsing grammar and the builders behind parse_from_number are not modelled — "never another '
+            'exception, never hangs, identical results" for the parse of a block is decided by the correspondence: every '
+            'prefix is scanned and every edition parsed by the real code under a 20 s alarm, results compared deeply '
+            '(arrays bit for bit) with those of the complete listing; 1% of the cases also in a brand-new interpreter '
+            '(history independence); thorough: every byte offset of the listings below 15 kB.',
+            'Trusted: Lean kernel + standard axioms; int() modelled for sign + ASCII digits, lines end with \\n; the edition '
+            'closed by the cut line itself is outside prefix_history (its parse fails or is compared by the correspondence).',
+            '10 (C11)'),
     'C12': ('Lean 4 proof over a three-layer model of the table side of the report: (L1) builders + verbosity dispatch over an '
             'abstract result: failure mark <=> result false for every built-in kind at every non-silent verbosity, Student '
             'rows = failing bins, highlighted cells = failing bins; (L2) reST writer and reader: a written data line reads '
